@@ -373,7 +373,7 @@ class ClientHost:
             self.obj = s
         return await self.call(op)
 
-    async def _net_op(self, sid, which, arg, fresh, keep):
+    async def _net_op(self, sid, which, arg, fresh, keep, wait=True):
         async def op():
             s = self._svc(sid, fresh)
             if keep:
@@ -384,7 +384,15 @@ class ClientHost:
                 if not fut.cancelled() and fut.exception() is None:
                     box.append(fut.result())
             try:
-                if which == "upload_config":
+                if not wait:
+                    # fire and poll (the style of the client module's own main()): the call returns once the request is sent, the
+                    # acknowledgement is handled by the client's receive task while the application does something else
+                    if which == "upload_config":
+                        await s.handle_upload_config()
+                    else:
+                        await s.handle_upload_encrypted_database()
+                    await asyncio.sleep(45)  # (long enough for a server that is still cleaning up earlier connections of the service)
+                elif which == "upload_config":
                     await s.handle_upload_config(wait=True, wait_callback_func=cb)
                 elif which == "upload_index":
                     await s.handle_upload_encrypted_database(wait=True, wait_callback_func=cb)
@@ -398,11 +406,11 @@ class ClientHost:
             return box, s
         return await self.call(op)
 
-    async def upload_config(self, sid, fresh=True, keep=False):
-        return await self._net_op(sid, "upload_config", None, fresh, keep)
+    async def upload_config(self, sid, fresh=True, keep=False, wait=True):
+        return await self._net_op(sid, "upload_config", None, fresh, keep, wait)
 
-    async def upload_index(self, sid, fresh=True, keep=False):
-        return await self._net_op(sid, "upload_index", None, fresh, keep)
+    async def upload_index(self, sid, fresh=True, keep=False, wait=True):
+        return await self._net_op(sid, "upload_index", None, fresh, keep, wait)
 
     async def search(self, sid, kw, fresh=True, keep=False):
         return await self._net_op(sid, "search", kw, fresh, keep)
